@@ -30,6 +30,33 @@ pub fn check_type_field(ctx: &mut Ctx, v: u16, extra: usize, seen: Option<&mut s
     let mut buf = vec![(v >> 8) as u8, v as u8];
     buf.extend(std::iter::repeat(0xA5).take(extra));
     let wit = || json!({"kind": "type-field", "value": v, "extra": extra});
+    // a type field with one of the top two bits set is "not STUN" for every decoder that reads it,
+    // whatever the rest of the header says (any length field, a short or a long buffer)
+    if v & 0xC000 != 0 && extra == 0 {
+        for (len_field, total) in [(0u16, 20usize), (0, 172), (4660, 172), (0xffff, 20), (8, 28), (3, 24)] {
+            let mut m = vec![0u8; total];
+            m[0] = (v >> 8) as u8;
+            m[1] = v as u8;
+            m[2] = (len_field >> 8) as u8;
+            m[3] = len_field as u8;
+            m[4..8].copy_from_slice(&COOKIE);
+            let r = guard(|| (Message::from_bytes(&m).map(|_| ()).map_err(|e| format!("{e:?}")), MessageHeader::from_bytes(&m).map(|_| ()).map_err(|e| format!("{e:?}"))));
+            if let Ok((full, hdr)) = r {
+                if full != Err("NotStun".to_string()) || hdr != Err("NotStun".to_string()) {
+                    ctx.violation(
+                        "C19",
+                        "type-decode-accept-iff",
+                        "Message::from_bytes",
+                        "top-bits-set-not-reported-as-not-stun",
+                        || json!({"kind": "type-field-in-buffer", "value": v, "length_field": len_field, "total": total}),
+                        "Err(NotStun) from the parser and the header decoder".into(),
+                        format!("parser {full:?}, header decoder {hdr:?} (length field {len_field}, {total} bytes)"),
+                    );
+                    break;
+                }
+            }
+        }
+    }
     let r = guard(|| MessageType::from_bytes(&buf));
     let r2 = guard(|| MessageType::try_from(&buf[..]));
     let want_ok = v & 0xC000 == 0;
@@ -148,6 +175,12 @@ pub fn check_class_method(ctx: &mut Ctx, c: u8, m: u16) {
         let t = MessageType::from_class_method(class_from(c), m);
         let mut w = [0xEEu8; 4];
         t.write_into(&mut w[..2]);
+        // into a longer destination (a packet buffer): the first two bytes, nothing else
+        let mut long = [0xEEu8; 20];
+        t.write_into(&mut long);
+        if long[..2] != w[..2] || long[2..].iter().any(|b| *b != 0xEE) {
+            w = [0; 4]; // reported below as a layout failure
+        }
         let parsed = MessageType::from_bytes(&t.to_bytes()).ok().map(|p| (class_num(p.class()), p.method()));
         (
             t.to_bytes(),
